@@ -44,6 +44,8 @@ def main(argv):
     except ModuleNotFoundError:
         print(f"ANALYSIS-ERROR property={pid}: no rules module rules/{pid.lower()}.py")
         return 2
+    report = None
+    only = None
     try:
         project = Project(repo)
         report = Report(pid, tier, repo)
@@ -73,6 +75,16 @@ def main(argv):
             return 0
         return report.finish(evidence_dir)
     except AnalysisError as e:
+        # a rule that ran before already found a definite violation: that verdict stands (the part of the analysis
+        # that could not run is reported next to it); otherwise there is no verdict
+        try:
+            viol, _known = report.evaluate(floors_enforced=False) if only is None else ([], [])
+        except Exception:
+            viol = []
+        if viol:
+            print(f"ANALYSIS-ERROR property={pid}: {e} (reported after {len(viol)} violation(s) found by rules that ran before)")
+            report.info["analysis_error_after_violation"] = str(e)
+            return report.finish(evidence_dir, floors_enforced=False)
         print(f"ANALYSIS-ERROR property={pid}: {e}")
         return 2
     except Exception:
